@@ -263,6 +263,8 @@ var standinPathPool = []string{
 	"/*{w}", "/a/*{w}", "/*{w}/b", "/a/*{w}/b", "/{x}/*{w}", "/a/b/c", "/{x}/b/c", "/{x}/{y}/c",
 }
 
+var standinCorePool = []string{"/", "/a", "/a/", "/a/b", "/{x}", "/{x}/", "/a/{x}", "/a{x}", "/ab"}
+
 var standinHostPool = []string{
 	"h.com/", "h.com/a", "h.com/{x}", "{s}.com/a", "{s}.com/{x}", "a.{s}.com/", "h.com/a/", "{s}.h.com/a", "a{s}.com/b",
 }
@@ -446,7 +448,7 @@ func TestFoxvcStandinRouting(t *testing.T) {
 	if thorough {
 		maxSize = 3
 	}
-	st.Space = fmt.Sprintf("all route sets of <= %d patterns from a pool of %d path patterns (x %d request paths) and of <= 2 patterns from %d hostname+path patterns (x %d hosts x paths); two insertion orders", maxSize, len(standinPathPool), len(standinPaths), len(standinHostPool)+4, len(standinHosts))
+	st.Space = fmt.Sprintf("all route sets of <= %d patterns from a pool of %d path patterns (x %d request paths) and of <= 2 patterns from %d hostname+path patterns (x %d hosts x paths); all triples of the 9 core patterns; triples of the deep pool; two insertion orders", maxSize, len(standinPathPool), len(standinPaths), len(standinHostPool)+4, len(standinHosts))
 	var rec func(pool []string, start int, cur []string, max int, hosts []string)
 	rec = func(pool []string, start int, cur []string, max int, hosts []string) {
 		if len(cur) > 0 {
@@ -460,6 +462,10 @@ func TestFoxvcStandinRouting(t *testing.T) {
 		}
 	}
 	rec(standinPathPool, 0, nil, maxSize, []string{""})
+	if !thorough {
+		// every triple of the core patterns (the thorough tier covers all triples of the full pool)
+		rec(standinCorePool, 0, nil, 3, []string{""})
+	}
 	mixed := append(append([]string{}, standinHostPool...), "/", "/a", "/{x}", "/a/")
 	rec(mixed, 0, nil, 2, standinHosts)
 	rec(standinDeepPool, 0, nil, 3, []string{""})
